@@ -183,8 +183,8 @@ func genTerm(p *Pool, rng *rand.Rand, vars []pair, depth int, w int) pair {
 		}
 		k := 1 + rng.Intn(w-1)
 		a, b := bin()
-		hi := p.Extract(a.t, w-1, w-k)   // k bits
-		lo := p.Extract(b.t, w-k-1, 0)   // w-k bits
+		hi := p.Extract(a.t, w-1, w-k) // k bits
+		lo := p.Extract(b.t, w-k-1, 0) // w-k bits
 		hv := new(big.Int).Rsh(a.r.v, uint(w-k))
 		lv := modw(b.r.v, w-k)
 		return pair{p.Concat(hi, lo), refVal{new(big.Int).Or(new(big.Int).Lsh(hv, uint(w-k)), lv), w}}
